@@ -562,7 +562,16 @@ impl Swift {
         match e {
             RustEnum::Unit(shared) => {
                 for v in &shared.variants {
-                    let variant_name = v.shared().id.original.to_camel_case();
+                    let mut variant_name = v.shared().id.original.to_camel_case();
+                    if variant_name
+                        .chars()
+                        .next()
+                        .map(|c| c.is_ascii_digit())
+                        .unwrap_or(false)
+                    {
+                        // `_1st` loses its underscore above; a case cannot start with a digit
+                        variant_name = format!("_{}", variant_name);
+                    }
 
                     self.write_comments(w, 1, &v.shared().comments)?;
                     if v.shared().id.renamed == variant_name {
